@@ -477,20 +477,39 @@ impl ConstructibleDb {
             if component_db.lifecycle(component_id) != Lifecycle::Singleton {
                 continue;
             }
-            let component = component_db.hydrated_component(component_id, computation_db);
-            let component_scope = component_db.scope_id(component_id);
-            for input_type in component.input_types() {
-                if let Some((input_constructor_id, _)) =
-                    self.get(component_scope, input_type, component_db.scope_graph())
-                    && component_db.lifecycle(input_constructor_id) == Lifecycle::RequestScoped
-                {
-                    Self::singleton_must_not_depend_on_request_scoped(
-                        component_id,
-                        input_constructor_id,
-                        component_db,
-                        computation_db,
-                        diagnostics,
-                    )
+            // Transient dependencies are built on the spot, every time they are needed:
+            // whatever a transient constructor depends on is a dependency of the singleton too.
+            // We therefore walk through transient constructors, transitively.
+            let mut visited = BTreeSet::new();
+            let mut reported = BTreeSet::new();
+            let mut to_be_visited = vec![component_id];
+            while let Some(id) = to_be_visited.pop() {
+                if !visited.insert(id) {
+                    continue;
+                }
+                let component = component_db.hydrated_component(id, computation_db);
+                let component_scope = component_db.scope_id(id);
+                for input_type in component.input_types() {
+                    let Some((input_constructor_id, _)) =
+                        self.get(component_scope, input_type, component_db.scope_graph())
+                    else {
+                        continue;
+                    };
+                    match component_db.lifecycle(input_constructor_id) {
+                        Lifecycle::RequestScoped => {
+                            if reported.insert(input_constructor_id) {
+                                Self::singleton_must_not_depend_on_request_scoped(
+                                    component_id,
+                                    input_constructor_id,
+                                    component_db,
+                                    computation_db,
+                                    diagnostics,
+                                )
+                            }
+                        }
+                        Lifecycle::Transient => to_be_visited.push(input_constructor_id),
+                        Lifecycle::Singleton => {}
+                    }
                 }
             }
         }
